@@ -113,6 +113,9 @@ def run(prog, rep, tier):
             for st in sts:
                 vs = variants_of_msg(E_, st)
                 lit = util.const_bytes_of_operand(prog, frame.body, t['args'][1])
+                if lit is None:
+                    import models
+                    lit = models.const_bytes_of(E_, st, E_.operand(st, frame, t['args'][1]))      # the literal reached the call through a local
                 seen.setdefault('dfin', []).append((vs, lit.decode() if lit is not None else None, t.get('sp'), E_.ival(st, AIN)))
     E.call_hook = call_hook
 
